@@ -122,6 +122,11 @@ func (p *FloatingIPPlugin) resyncAllocatedIPs(meta *resyncMeta) {
 					// return to retry unassign ip in the next resync loop
 					return
 				}
+				// the pod may own more ips, unassign them before their node attr is cleaned together
+				if err := p.unassignIPsOfKey(key, "during resync"); err != nil {
+					glog.Warning(err)
+					return
+				}
 				// for tapp and sts pod, we need to clean its node attr and uid
 				if err := p.reserveIP(key, key, "unassign ip during resync"); err != nil {
 					glog.Error(err)
